@@ -119,7 +119,9 @@ def table_heavy_frame(r, g, marker):
     t = {}
     for j in range(r.randint(2, 8)):
         t['k%d_%d%s' % (marker, j, r.choice(['', 'x', '\u00e9']))] = \
-            r.choice([j, 'v', True, None, [j], {'n%d' % marker: j}])
+            r.choice([j, 'v', True, None, [j], {'n%d' % marker: j},
+                      [100000 + j, 70000, 2 ** 20], [40000 + j] * 3,
+                      [-5, 300, 70000, 2 ** 40]])
     for _ in range(20):
         if r.random() < 0.7:
             name = r.choice(TABLE_METHODS)
